@@ -22,7 +22,7 @@ func init() {
 		ID: "C16", Level: "exploration", Primary: "calls", EvalCount: "calls",
 		Rule: "every call of an exported helper/constructor runs under recover(); a case is distinct by (function, argument-shape signature): " +
 			"ConvertString (tag,first length byte,#following bytes) / wrapper (tag,length class); SID (revision,authority) pairs; NewEntry map shapes; " +
-			"constructor x ordered option list; non-trivial = it reached the function body with that shape",
+			"constructor x ordered option list; 33 odd strings in every string-typed Mux registration option; the default result code of every response constructor called without WithResponseCode (checked on the wire); non-trivial = it reached the function body with that shape",
 		Assume: []string{"panics are observed through recover() in the calling goroutine; New*Response constructors are exercised inside a live handler (the only way to own a *Request)"},
 		Phases: func(tier string, seed int64) []Phase {
 			return []Phase{{Name: "helpers", Run: c16Helpers}, {Name: "constructors", Run: c16Constructors}}
